@@ -53,6 +53,22 @@ func posLacks(subs ...string) func(o report.Obligation) bool {
 	}
 }
 
+func posHas(subs ...string) func(o report.Obligation) bool {
+	f := posLacks(subs...)
+	return func(o report.Obligation) bool { return !f(o) }
+}
+
+func anyOf(fs ...func(o report.Obligation) bool) func(o report.Obligation) bool {
+	return func(o report.Obligation) bool {
+		for _, f := range fs {
+			if f(o) {
+				return true
+			}
+		}
+		return false
+	}
+}
+
 func funcHas(subs ...string) func(o report.Obligation) bool {
 	return func(o report.Obligation) bool {
 		for _, s := range subs {
@@ -91,6 +107,20 @@ var (
 	rOwnEscape = Rule{"OWN-ESCAPE", rules.OwnEscape}
 	rOwnNondet = Rule{"OWN-NONDET", rules.OwnNondet}
 
+	rNarrow   = Rule{"NUM-NARROW", rules.NumNarrow(rules.ScopeNum, rules.NarrowResiduals, 70)}
+	rShift    = Rule{"NUM-SHIFT", rules.NumShift(rules.ScopeNum, rules.ShiftResiduals, 5)}
+	rExp32    = Rule{"NUM-EXP32", rules.NumArith32(rules.ScopeNum, nil, 4)}
+	rBig      = Rule{"NUM-BIG", rules.NumBig(rules.ScopeIon, 3)}
+	rF32      = Rule{"NUM-F32", rules.NumF32(rules.ScopeIon, 2)}
+	rReflect  = Rule{"NUM-REFLECT", rules.NumReflect(rules.ScopeIon, 4)}
+	rNoFloat  = Rule{"NUM-NOFLOAT", rules.NumNoFloat}
+	rAlloc    = Rule{"NUM-ALLOC", rules.NumAlloc(rules.ScopeAlloc, rules.AllocResiduals, 12)}
+	rLenPay   = Rule{"TAB-LENPAY", rules.TabLenPay}
+	rCodec    = Rule{"TAB-CODEC", rules.TabCodec}
+	rDateVal  = Rule{"TAB-DATEVAL", rules.TabDateVal}
+	rTextAuth = Rule{"OWN-TEXTAUTH", rules.OwnTextAuth}
+	rOwnInput = Rule{"OWN-INPUT", rules.OwnInput}
+
 	rGuardW  = Rule{"ERR-GUARD-W", rules.ErrGuardW}
 	rStickyW = Rule{"ERR-STICKY-W", rules.ErrStickyW}
 	rAbsorbR = Rule{"ERR-ABSORB-R", rules.ErrAbsorbR}
@@ -99,17 +129,19 @@ var (
 )
 
 const ssaTech = "SSA must-dataflow of branch facts, path search to exits and effect summaries over the VTA call graph"
+const numTech = "interval abstract interpretation over SSA (defining expression, result ranges of len/time/strconv/io primitives and of module callees, dominating comparisons as branch facts, per-edge facts of phis, induction on loop-carried values) deciding operand-range ⊆ target-range at every lossy conversion, shift and narrow arithmetic"
 const tabTech = "constant-table extraction from SSA (enum value-set dataflow over switch/if dispatch) compared with the Ion 1.0 tables embedded in the checker and with the sibling implementation's table"
 
 var registry = map[string]*Property{
 	"C01": {
-		Decided:    "The finite tables of the writers and the readers are inverse of each other: every single-letter escape the text writer spells is mapped back to the same byte by the text reader and the needs-escaping tests cover delimiter, backslash and control characters (TAB-ESCAPE, writer obligations); typed-null spellings written = names the reader dispatches on = the 13 Ion type names (TAB-NULLKW); identifier-shaped text with a non-symbol meaning is quoted when written as a symbol (TAB-KEYWORD); binary type codes, per-code value types, float sizes and typed-null bytes equal the Ion 1.0 tables (TAB-TYPECODE); every value the writers open is closed on each success path, annotation wrappers included (ORD-VALUE); in Finish the version marker precedes the symbol table, which precedes the buffered values (ORD-LSTFIRST).",
+		Decided:    "The finite tables of the writers and the readers are inverse of each other: every single-letter escape the text writer spells is mapped back to the same byte by the text reader and the needs-escaping tests cover delimiter, backslash and control characters (TAB-ESCAPE, writer obligations); typed-null spellings written = names the reader dispatches on = the 13 Ion type names (TAB-NULLKW); identifier-shaped text with a non-symbol meaning is quoted when written as a symbol (TAB-KEYWORD); binary type codes, per-code value types, float sizes and typed-null bytes equal the Ion 1.0 tables (TAB-TYPECODE); every value the writers open is closed on each success path, annotation wrappers included (ORD-VALUE); in Finish the version marker precedes the symbol table, which precedes the buffered values (ORD-LSTFIRST); every length the binary writer declares is computed with the codec, and for the operand, that the payload is appended with (TAB-LENPAY); each binary field uses the codec family Ion 1.0 prescribes on the writing and on the reading side (TAB-CODEC); a symbol token's text is never reinterpreted as a '$n' ID nor replaced by the token's source SID when written (OWN-TEXTAUTH).",
 		Necessary:  "A byte escaped as \\X that the reader maps elsewhere, a typed null spelled with another type's name, a reserved word written unquoted, a type code decoded as another type, an unclosed 0xE0 wrapper or a table emitted after its values each change or lose a value named in the property's quantifier.",
-		NotDecided: "payload encodings (ints, floats, decimals, timestamps), xLen = len(appendX), float/decimal/timestamp formatting, symbol text versus $n reinterpretation in the binary writer (finding F5, not decided by any rule)",
+		NotDecided: "payload encodings (ints, floats, decimals, timestamps), xLen = len(appendX), float/decimal/timestamp formatting; each codec's own length function (len(appendX(v)) = xLen(v))",
 		Technique:  tabTech + "; CFG/SSA pairing for ORD",
 		DesignRef:  "DESIGN.md §3.4, §3.5, §4 C01",
 		Rules: []Rule{
 			only(rEscape, 18, whatHas("writer:")), rNullKW, rKeyword, rTypecode, rOrdValue, rOrdLstFirst,
+			rLenPay, rCodec, rTextAuth,
 		},
 	},
 	"C02": {
@@ -123,35 +155,46 @@ var registry = map[string]*Property{
 		},
 	},
 	"C03": {
-		Decided:    "The binary reader's type-code table, the value type stored for each type code and the accepted float sizes equal the Ion 1.0 tables (TAB-TYPECODE, reader obligations); validateAnnotatedValue special-cases exactly the type codes whose low nibble bitstream.Next does not read as a body length, so a wrapper around true/false or a sorted struct is measured correctly (TAB-NIBBLE).",
+		Decided:    "The binary reader's type-code table, the value type stored for each type code and the accepted float sizes equal the Ion 1.0 tables (TAB-TYPECODE, reader obligations); validateAnnotatedValue special-cases exactly the type codes whose low nibble bitstream.Next does not read as a body length, so a wrapper around true/false or a sorted struct is measured correctly (TAB-NIBBLE); each field is decoded with the primitive Ion 1.0 prescribes (TAB-CODEC, reader obligations); the VarUInt/VarInt accumulators cannot drop high bits and every narrowing in the bitstream and binary reader is in range (NUM-SHIFT, NUM-NARROW, bitstream obligations); bytes handed to the caller never alias the read buffer (OWN-INPUT, Peek obligations).",
 		Necessary:  "A type code decoded as another type, a refused float size, or a wrapper length check that misreads a bool's nibble (finding F13, fixed) rejects or misdecodes a valid encoding.",
 		NotDecided: "VarUInt/VarInt arithmetic, padding, NOP handling, struct ordering, lengths (behavioural); TAB-BUDGET of the design was not built",
 		Technique:  tabTech,
 		DesignRef:  "DESIGN.md §3.4, §4 C03",
 		Rules: []Rule{
 			only(rTypecode, 30, whatLacks("binaryNulls[")), rNibble,
+			only(rCodec, 8, whatHas("decode")), only(rShift, 5, posHas("ion/bitstream.go")), only(rNarrow, 15, posHas("ion/bitstream.go", "ion/binaryreader.go")),
+			only(rOwnInput, 3, whatHas("slice returned by Peek")),
 		},
 	},
 	"C04": {
-		Decided:    "Binary typed-null bytes written equal the Ion 1.0 table (TAB-TYPECODE, writer obligations); text typed-null spellings are the 13 Ion type names (TAB-NULLKW, writer obligations); every single-letter escape the text writer spells denotes the written byte in the Ion 1.0 escape table, and the needs-escaping tests of strings, symbols and clobs cover delimiter, backslash, control characters and non-ASCII for clobs (TAB-ESCAPE, writer-vs-spec and predicate obligations); keywords are quoted when written as symbols (TAB-KEYWORD); every opened value/container/annotation wrapper is closed on each success path (ORD-VALUE); version marker before symbol table before values, fixed table before the first value (ORD-LSTFIRST).",
+		Decided:    "Binary typed-null bytes written equal the Ion 1.0 table (TAB-TYPECODE, writer obligations); text typed-null spellings are the 13 Ion type names (TAB-NULLKW, writer obligations); every single-letter escape the text writer spells denotes the written byte in the Ion 1.0 escape table, and the needs-escaping tests of strings, symbols and clobs cover delimiter, backslash, control characters and non-ASCII for clobs (TAB-ESCAPE, writer-vs-spec and predicate obligations); keywords are quoted when written as symbols (TAB-KEYWORD); every opened value/container/annotation wrapper is closed on each success path (ORD-VALUE); version marker before symbol table before values, fixed table before the first value (ORD-LSTFIRST); every declared length is computed with the codec and operand the payload is appended with, across the xLen/appendX and Len/EmitTo sibling pairs too (TAB-LENPAY); each field uses the codec Ion 1.0 prescribes (TAB-CODEC, writer obligations); no value is narrowed out of range on its way into the encoders, in particular no negative symbol ID (NUM-NARROW, writer files); IDs written come from this writer's table by text (OWN-TEXTAUTH, writer obligations).",
 		Necessary:  "Each clause is checked against the specification embedded in the checker, not against this repository's reader: a wrong null byte or name, a raw delimiter, an unquoted keyword, an unclosed wrapper (declared length never patched) or a table after its values is ill-formed or denotes another value under any conforming decoder.",
-		NotDecided: "each codec's own length function (TAB-LENPAY not built), negative symbol IDs (finding F25, NUM-NARROW not built), separators and number formatting",
+		NotDecided: "each codec's own length function (len(appendX(v)) = xLen(v) is arithmetic), separators and number formatting of the text writer",
 		Technique:  tabTech + "; CFG/SSA pairing for ORD",
 		DesignRef:  "DESIGN.md §3.4, §3.5, §4 C04",
 		Rules: []Rule{
 			only(rTypecode, 13, whatHas("binaryNulls[")), only(rNullKW, 13, whatHas("writer:")), only(rEscape, 20, whatHas("escapes when", "writer-vs-spec:")), rKeyword, rOrdValue, rOrdLstFirst,
+			rLenPay, only(rCodec, 25, whatLacks("decode")), only(rNarrow, 30, posHas("ion/binarywriter.go", "ion/bits.go", "ion/buf.go")), only(rTextAuth, 2, posHas("ion/binarywriter.go")),
 		},
 	},
-	"C05": {NAReason: "The structural clause identified for this property (OWN-TEXTAUTH: at every place the binary writer turns a token into an ID the token's text wins over the source SID) was not built in this revision; the remaining content (equivalence of whole documents across formats and tables) quantifies over runtime values that no static rule here can bound. Findings F5 and F6 of DESIGN §6 remain open and are not decided by any check."},
+	"C05": {
+		Decided:    "A symbol token's text is authoritative wherever a token is turned into bytes: (i) text taken from a SymbolToken is never handed to a parameter that is interpreted as a '$n' symbol-ID reference (symbolIdentifier with its ID result used, binaryWriter.resolve, Writer.WriteSymbolFromString, newSymbolToken — the set is computed from the call graph), in package ion and in the command's copy loop; (ii) in the binary writer a token's LocalSID becomes the ID to write only on the edge where its Text is nil, at the one place (resolveToken) all three uses — value, field name, annotation — go through; (iii) the text reader applies the '$n' interpretation only to unquoted identifier tokens (OWN-TEXTAUTH).",
+		Necessary:  "The Reader attaches the source table's SID to every token. A writer that prefers LocalSID over text emits IDs of a table the output never declares (F6), and one that passes token text through the '$n' interpretation writes the symbol '$5' as symbol 5 (F5); both change the copied document whenever source and destination tables differ. Both were genuine defects on the pinned tree and were repaired (fix: f27bc41, 36b2787).",
+		NotDecided: "equivalence of whole documents across formats; that every reader accessor result is forwarded by the copy loop; the text writer's spelling of tokens without text ($n)",
+		Technique:  "call-graph fixed point for '$n'-interpreting parameters + SSA value-flow from SymbolToken.Text loads to call arguments; branch-fact dominance (Text == nil) at LocalSID uses; enum value-set dataflow of the token kind at newSymbolToken calls",
+		DesignRef:  "DESIGN.md §3.6 OWN-TEXTAUTH, §4 C05, §0.7",
+		Rules:      []Rule{rTextAuth},
+	},
 	"C06": {
-		Decided:    "In package ion: a pointer obtained from an accessor that returns (nil, nil) for a typed null is dereferenced only where it is known non-nil, with preconditions inferred through helper calls (NIL-ACC); such a pointer is not passed to a callee that dereferences it unguarded (NIL-ARG); the pointer fields documented nil-if-unknown (SymbolToken.Text/Source, ImportSource) are dereferenced only under a nil test of the same access path (NIL-FIELD); every panicking pop on the reader-side stacks is dominated by a non-emptiness fact (ORD-POPGUARD, reader obligations).",
+		Decided:    "In package ion: a pointer obtained from an accessor that returns (nil, nil) for a typed null is dereferenced only where it is known non-nil, with preconditions inferred through helper calls (NIL-ACC); such a pointer is not passed to a callee that dereferences it unguarded (NIL-ARG); the pointer fields documented nil-if-unknown (SymbolToken.Text/Source, ImportSource) are dereferenced only under a nil test of the same access path (NIL-FIELD); every panicking pop on the reader-side stacks is dominated by a non-emptiness fact (ORD-POPGUARD, reader obligations); on the input side every allocation with a non-constant size is sized by the length of data already in memory or by a value bounded by 2^20 — a declared length never sizes an allocation before the bytes exist (NUM-ALLOC, 2 residual rows).",
 		Necessary:  "An unguarded dereference of a typed null's nil accessor result, or an unguarded pop, is a panic on an input that exists (null.int, $0, imports:null.symbol — findings F7, F8, F9, all fixed).",
-		NotDecided: "index/slice bounds, allocation sized by a declared length (finding F11, NUM-ALLOC not built), internal consistency panics, loop termination, recursion depth",
+		NotDecided: "index/slice bounds, internal consistency panics, loop termination, recursion depth, memory retained by deeply nested or very long valid input",
 		Technique:  "SSA must-dataflow of nil facts keyed by canonical access path, with inferred callee preconditions",
 		DesignRef:  "DESIGN.md §3.2, §4 C06",
 		Rules: []Rule{
 			{"NIL-ACC", rules.NilAcc(rules.ScopeIon, 20)}, {"NIL-ARG", rules.NilArg(rules.ScopeIon, 0)}, {"NIL-FIELD", rules.NilField(rules.ScopeIon, 8)},
 			only(rOrdPopGuard, 2, funcHas("Reader", "bitstream", "tokenizer")),
+			rAlloc,
 		},
 	},
 	"C07": {
@@ -190,12 +233,12 @@ var registry = map[string]*Property{
 		Rules:      []Rule{rOrdBVMReset, rOrdLstHide, {"NIL-ACC", rules.NilAcc(rules.ScopeLST, 4)}},
 	},
 	"C11": {
-		Decided:    "The field names and the annotation the symbol table writer emits are exactly those the symbol table reader dispatches on, max_id included (TAB-LSTFIELDS); the fixed/imported table is written before the first value (ORD-LSTFIRST); the builder consults imports and existing entries before defining a local symbol (ORD-FIRSTWINS).",
+		Decided:    "The field names and the annotation the symbol table writer emits are exactly those the symbol table reader dispatches on, max_id included (TAB-LSTFIELDS); the fixed/imported table is written before the first value (ORD-LSTFIRST); the builder consults imports and existing entries before defining a local symbol (ORD-FIRSTWINS); token text reaches the table lookup as it is — never through the '$n' interpretation, which would bypass a fixed table's 'not defined' error and emit an arbitrary ID (OWN-TEXTAUTH, binary writer obligations).",
 		Necessary:  "An import declaration the reader does not understand leaves every imported ID unresolvable; a table after the first value or a local redefinition of imported text emits IDs the stream does not (minimally) define.",
 		NotDecided: "ID arithmetic; that unknown text under a fixed table is an error (OWN-FIXEDLST not built)",
 		Technique:  tabTech + "; SSA dominance for ORD",
 		DesignRef:  "DESIGN.md §3.4, §3.5, §4 C11",
-		Rules:      []Rule{rLstFields, rOrdLstFirst, rOrdFirstWins},
+		Rules:      []Rule{rLstFields, rOrdLstFirst, rOrdFirstWins, only(rTextAuth, 2, posHas("ion/binarywriter.go"))},
 	},
 	"C12": {
 		Decided:    "For all 24 error-returning Writer methods on each writer implementation: the sticky error is tested before any effect on the writer (ERR-GUARD-W) and every returned error is the sticky error (ERR-STICKY-W); every value opened is closed on each success path (ORD-VALUE); Finish re-arms the binary writer before every success exit (ORD-REARM); every panicking pop on the writer-side stacks is dominated by a non-emptiness fact (ORD-POPGUARD, writer obligations); nothing in the writer implementation reachable from the Writer methods consults a time-, random- or schedule-dependent source and every map range there has an order-insensitive body (OWN-NONDET, functions outside marshal.go, fields.go and the command).",
@@ -207,25 +250,51 @@ var registry = map[string]*Property{
 			rGuardW, rStickyW, rOrdValue, rOrdRearm, only(rOrdPopGuard, 2, funcHas("Writer", "writer")), only(rOwnNondet, 40, posLacks("ion/marshal.go", "ion/fields.go", "cmd/")),
 		},
 	},
-	"C13": {NAReason: "Every clause identified for this property is numeric (NUM-NARROW: no lossy integer conversion on the value path; NUM-BIG; NUM-F32; NUM-EXP32); the NUM engine was not built in this revision and no other rule decides a necessary condition of exact encoding/decoding. Exactness of the VarUInt/VarInt/Int codecs is arithmetic over runtime values. Findings F20 and F25 of DESIGN §6 remain open; F7 and F19 were repaired."},
-	"C14": {NAReason: "Exact rational results of Add/Sub/Mul/Shift/Truncate and the text round trip of decimals are arithmetic over unbounded runtime values; the only structural clauses identified (NUM-EXP32, NUM-NOFLOAT) belong to the NUM engine, which was not built. No static rule in reach bounds these quantities."},
-	"C15": {NAReason: "Calendar validation (TAB-DATEVAL) and fraction rounding (NUM-BIG/NUM-NARROW) rules were not built; formatting and parsing of timestamps are behaviour of staged parsers over runtime strings. Findings F12, F18 and F19 of DESIGN §6 were repaired by fix: commits but no check of this revision would detect their return."},
+	"C13": {
+		Decided:     "On the numeric data path of package ion (every file that carries a number, length, symbol ID, exponent or calendar field between the API and the bytes): every integer conversion that can lose value bits or the sign has an operand interval inside the target type, or is the sign-magnitude idiom, or hands its result only to a callee that rejects the wrapped values, or is one of 5 residual rows with a reason (NUM-NARROW); every left shift keeps all value bits — in particular the 7-bits-per-byte VarUInt/VarInt accumulators are checked before each shift (NUM-SHIFT, 2 residual rows: fixed-width loops); every big.Int.Int64()/Uint64() is dominated by IsInt64()/IsUint64() on the same unmodified receiver (NUM-BIG); every float64→float32 narrowing is the losslessness test or dominated by it (NUM-F32).",
+		Necessary:   "Each rule instance is a place where Go silently wraps, truncates or rounds: uint64(negative SID) (F25, fixed), int(VarUInt >= 2^63) as a year (fixed), a 10-byte VarUInt losing its top bits (fixed), Int64() of a 70-bit coefficient (F19, fixed), float32(x) without the equality test. An unchecked instance on the data path is a number that changes without an error.",
+		NotDecided:  "that the accessors' range tests use the right bounds (IntSize/IntValue constants), the arithmetic inside each codec loop (bytes assembled in the right order), typed-null/usage-error behaviour of accessors (NIL-ACC under C06 covers the nil dereference side only); trip counts of the two fixed-width loops in ReadInt/ReadSymbolID (residual rows)",
+		Technique:   numTech,
+		DesignRef:   "DESIGN.md §3.3, §4 C13, §0.7",
+		Assumptions: []string{"int is 64 bits (linux/amd64, the analysed configuration)", "len/cap of a string or slice is at most 2^48 (runtime.maxAlloc on 64-bit platforms)", "documented result ranges of time.Time accessors, strconv.ParseInt(_, _, N), io.ReadFull, bufio.Reader.Discard, math/big.Int.BitLen"},
+		Rules:       []Rule{rNarrow, rShift, rBig, rF32},
+	},
+	"C14": {
+		Decided:    "Exponent arithmetic never wraps silently where this can be decided: every +, -, * and unary minus carried out in a type narrower than 64 bits (the decimal scale is an int32) has a result interval inside the type (NUM-EXP32) — Mul, ShiftL, ShiftR and ParseDecimal widen to int64, check the range and narrow; every narrowing in decimal.go has an in-range operand (NUM-NARROW, decimal.go obligations); no floating-point value takes part in Add, Sub, Mul, Neg, Abs, ShiftL, ShiftR, Cmp, Equal, Sign, Truncate, String, CoEx, ParseDecimal, NewDecimal or anything they call in the module (NUM-NOFLOAT).",
+		Necessary:  "'0.1d-2147483648' parsed as 1d2147483647 because the fraction digits were subtracted from the exponent in int32 (F20, fixed: bbed24c). A float in an exact operation rounds. The four negations of the int32 scale (NewDecimal, CoEx, String x2) are a genuine, recorded defect at exponent -2^31 (known finding F20b: the value cannot be represented because the struct stores -exponent in an int32; ShiftL(1) on it panics).",
+		NotDecided: "algebraic exactness of the big.Int arithmetic after rescaling, the three text layouts of String, Truncate's digit arithmetic, negative-zero propagation — arithmetic over unbounded runtime values; this is the weakest claim of the set",
+		Technique:  numTech + "; call-graph closure for NUM-NOFLOAT",
+		DesignRef:  "DESIGN.md §3.3, §4 C14, §0.7",
+		Rules:      []Rule{rExp32, rNoFloat, only(rNarrow, 5, posHas("ion/decimal.go"))},
+	},
+	"C15": {
+		Decided:    "Calendar validation compares every field it hands to time.Date (which normalises month 13, day 32, hour 24, minute/second 60 instead of rejecting them) with the matching accessor of the result before every success exit, and the time value each decoded timestamp is built from has 1 <= Year() <= 9999 established — for the local time after the offset is applied, not for the UTC fields (TAB-DATEVAL); the binary timestamp layout uses the codecs Ion 1.0 prescribes on both sides — VarInt offset, VarUInt calendar fields, decimal fraction with VarInt exponent and Int coefficient (TAB-CODEC, timestamp obligations) — and timestampLen measures exactly the operands appendTimestamp appends, with the same codec, every unmeasured operand being a one-byte VarUInt by its interval (TAB-LENPAY, timestamp pair); calendar fields and fraction digits are narrowed only within range (NUM-NARROW, timestamp obligations) and the fraction rounding never extracts 64 bits from a larger big.Int (NUM-BIG).",
+		Necessary:  "Binary minute 60 was normalised into the next hour (F18, fixed); binary year 0, 10000, 2^31 and a wrapped 2^64-100 were accepted (fixed: 27f5dbd); a fraction coefficient measured with another codec than it is written with mis-frames every following byte (seeded C01-1/C04-1/C15-3); a 21-digit fraction decoded through Int64() of a 70-bit number (F19, fixed).",
+		NotDecided: "text formatting (layout selection, trailing zeros), staged text parsing by string position, offset arithmetic and its 24h bound, rounding direction of fractions",
+		Technique:  "SSA branch-fact dominance (equalities with time accessors, helper-predicate facts) + " + numTech + "; codec-family tables compared with Ion 1.0",
+		DesignRef:  "DESIGN.md §3.3, §3.4, §4 C15, §0.7",
+		Rules: []Rule{
+			rDateVal, only(rCodec, 14, anyOf(funcHas("imestamp", "readNsecs", "readDecimal"))), only(rLenPay, 18, funcHas("imestamp")),
+			only(rNarrow, 12, anyOf(funcHas("imestamp", "readNsecs", "readDecimal"), posHas("ion/timestamp.go"))), only(rBig, 1, funcHas("round")),
+		},
+	},
 	"C16": {
-		Decided:    "Only the determinism clause: MarshalText asks for sorted map keys and with that option encodeMap sorts the keys before emitting any field (ORD-SORTMAP); nothing reachable from Marshal*/Encoder/Writer methods consults a time-, random- or schedule-dependent source, and every map range has an order-insensitive body (OWN-NONDET).",
+		Decided:    "Only the determinism clause: MarshalText asks for sorted map keys and with that option encodeMap sorts the keys before emitting any field (ORD-SORTMAP); nothing reachable from Marshal*/Encoder/Writer methods consults a time-, random- or schedule-dependent source, and every map range has an order-insensitive body (OWN-NONDET); the one narrowing on the encode path, int64(v.Uint()), happens only under reflect kinds whose values fit (NUM-NARROW, marshal.go).",
 		Necessary:  "Go's map iteration order is random, so an unsorted map encode or any other nondeterminism source makes MarshalText output differ between runs for the same value.",
 		NotDecided: "value equality after the round trip; kind/opaque-type dispatch agreement between encoder and decoder (TAB-OPAQUE, TAB-KIND not built; finding F21 was repaired)",
 		Technique:  "SSA dominance + call-graph reachability from the output API",
 		DesignRef:  "DESIGN.md §3.5, §3.6, §4 C16",
-		Rules:      []Rule{rOrdSortMap, rOwnNondet},
+		Rules:      []Rule{rOrdSortMap, rOwnNondet, only(rNarrow, 1, posHas("ion/marshal.go"))},
 	},
 	"C17": {
-		Decided:    "In unmarshal.go: token text and the other nil-if-unknown pointer fields are tested before use (NIL-FIELD); accessor results are dereferenced only under the non-null precondition (NIL-ACC, NIL-ARG); Decoder.Decode/DecodeTo return the reader's error or ErrNoInput, never nil, when Next() reports no value (ORD-NOINPUT).",
+		Decided:    "In unmarshal.go: token text and the other nil-if-unknown pointer fields are tested before use (NIL-FIELD); accessor results are dereferenced only under the non-null precondition (NIL-ACC, NIL-ARG); Decoder.Decode/DecodeTo return the reader's error or ErrNoInput, never nil, when Next() reports no value (ORD-NOINPUT); every reflective numeric store is dominated by the matching Overflow test on the same value and operand, every signed-to-unsigned conversion by a sign test, every big.Int extraction by IsUint64 (NUM-REFLECT, NUM-NARROW, NUM-BIG in unmarshal.go).",
 		Necessary:  "A symbol without text ($0) or a typed null reaching an unguarded dereference panics instead of returning an error (F9, fixed); a Decoder that returns nil at the end of the stream never reports ErrNoInput.",
-		NotDecided: "the value × target conversion table, overflow tests before reflective sets (NUM-REFLECT, TAB-REFLECTSET not built; finding F10 was repaired)",
+		NotDecided: "the value × target conversion table, type identity of reflective Set calls (TAB-REFLECTSET not built; finding F10 was repaired), the reader's position after a failed decode",
 		Technique:  "SSA must-dataflow of nil facts; path search to exits",
 		DesignRef:  "DESIGN.md §3.2, §3.5, §4 C17",
 		Rules: []Rule{
 			{"NIL-FIELD", rules.NilField(rules.ScopeUnmarshal, 2)}, {"NIL-ACC", rules.NilAcc(rules.ScopeUnmarshal, 10)}, {"NIL-ARG", rules.NilArg(rules.ScopeUnmarshal, 0)}, rOrdNoInput,
+			rReflect, only(rBig, 1, posHas("ion/unmarshal.go")), only(rNarrow, 2, posHas("ion/unmarshal.go")),
 		},
 	},
 	"C18": {
@@ -237,34 +306,39 @@ var registry = map[string]*Property{
 		Rules:      []Rule{rOwnImmut, rOwnGlobal, rOwnEscape, rOwnNondet},
 	},
 	"C19": {
-		Decided:    "In the reader and writer files of package ion no error of a module function, ion interface method or I/O primitive is discarded (ERR-DROP) and no path from a non-nil error test reaches an exit with the error neither consumed nor replaced by a definitely non-nil error (ERR-SWAP); a failed write is sticky in every Writer method (ERR-STICKY-W); a failed read is made sticky before a Reader method returns it (ERR-STICKY-R).",
+		Decided:    "In the reader and writer files of package ion no error of a module function, ion interface method or I/O primitive is discarded (ERR-DROP) and no path from a non-nil error test reaches an exit with the error neither consumed nor replaced by a definitely non-nil error (ERR-SWAP); a failed write is sticky in every Writer method (ERR-STICKY-W); a failed read is made sticky before a Reader method returns it (ERR-STICKY-R); the caller's io.Reader is only wrapped in a bufio.Reader and that is used only through complete-or-error primitives (ReadByte, Peek, Discard, io.ReadFull), so no result depends on how a Read was chunked (OWN-INPUT).",
 		Necessary:  "bufio forgets an error once it has returned it, so an I/O error that is dropped, swapped for nil or returned without being stored looks like a clean end of data (F24, F26, fixed) or lets a later Finish return nil (F2, F3, fixed).",
-		NotDecided: "equality of results across chunkings (follows from bufio's contract, trusted), the prefix property of accepted bytes, that only complete-or-error input primitives are used (OWN-INPUT not built)",
+		NotDecided: "equality of results across chunkings (follows from bufio's contract, trusted), the prefix property of accepted bytes",
 		Technique:  ssaTech,
 		DesignRef:  "DESIGN.md §3.1, §4 C19",
 		Rules: []Rule{
-			{"ERR-DROP", rules.ErrDrop(rules.ScopeIO, nil, 300)}, {"ERR-SWAP", rules.ErrSwap(rules.ScopeIO, rules.SwapSuppReader, 200)}, rStickyW, rStickyR,
+			{"ERR-DROP", rules.ErrDrop(rules.ScopeIO, nil, 300)}, {"ERR-SWAP", rules.ErrSwap(rules.ScopeIO, rules.SwapSuppReader, 200)}, rStickyW, rStickyR, rOwnInput,
 		},
 	},
 	"C20": {
-		Decided:    "In cmd/ion-go: a possibly-nil accessor result (typed null) is dereferenced only where known non-nil and is not passed to a callee that dereferences it unguarded (NIL-ACC, NIL-ARG scoped to the command).",
+		Decided:    "In cmd/ion-go: a possibly-nil accessor result (typed null) is dereferenced only where known non-nil and is not passed to a callee that dereferences it unguarded (NIL-ACC, NIL-ARG scoped to the command); the copy loop never extracts 64 bits from a big.Int without IsInt64/IsUint64 and never narrows a number out of range (NUM-BIG, NUM-NARROW scoped to the command); it never hands a token's text to a '$n'-interpreting Writer method (OWN-TEXTAUTH, command obligations).",
 		Necessary:  "The copy loop reads every scalar through the nil-returning accessors; an unguarded dereference is a panic on null.int and friends (part of F22, fixed).",
 		NotDecided: "output equivalence, exhaustiveness of the copy switch (TAB-COPYLOOP not built), event stream well-formedness, the panic(err) calls in stringify/symbolify/clobify",
 		Technique:  "SSA must-dataflow of nil facts with inferred callee preconditions",
 		DesignRef:  "DESIGN.md §3.2, §4 C20",
-		Rules:      []Rule{{"NIL-ACC", rules.NilAcc(rules.ScopeCmd, 1)}, {"NIL-ARG", rules.NilArg(rules.ScopeCmd, 1)}},
+		Rules:      []Rule{{"NIL-ACC", rules.NilAcc(rules.ScopeCmd, 1)}, {"NIL-ARG", rules.NilArg(rules.ScopeCmd, 1)}, {"NUM-BIG", rules.NumBig(rules.ScopeCmd, 0)}, {"NUM-NARROW", rules.NumNarrow(rules.ScopeCmd, nil, 0)}, only(rTextAuth, 0, posHas("cmd/"))},
 	},
 }
 
 // devRules: every rule by name, for `ionlint -dev RULE`.
 var devRules = map[string]Rule{
-	"NUM-NARROW":  {"NUM-NARROW", rules.NumNarrow(rules.ScopeNum, nil, 0)},
-	"NUM-SHIFT":   {"NUM-SHIFT", rules.NumShift(rules.ScopeNum, nil, 0)},
-	"NUM-EXP32":   {"NUM-EXP32", rules.NumArith32(rules.ScopeNum, nil, 0)},
-	"NUM-BIG":     {"NUM-BIG", rules.NumBig(rules.ScopeIon, 0)},
-	"NUM-F32":     {"NUM-F32", rules.NumF32(rules.ScopeIon, 0)},
-	"NUM-REFLECT": {"NUM-REFLECT", rules.NumReflect(rules.ScopeIon, 0)},
-	"NUM-NOFLOAT": {"NUM-NOFLOAT", rules.NumNoFloat},
-	"TAB-LENPAY":  {"TAB-LENPAY", rules.TabLenPay},
-	"TAB-CODEC":   {"TAB-CODEC", rules.TabCodec},
+	"NUM-NARROW":   {"NUM-NARROW", rules.NumNarrow(rules.ScopeNum, rules.NarrowResiduals, 0)},
+	"NUM-SHIFT":    {"NUM-SHIFT", rules.NumShift(rules.ScopeNum, rules.ShiftResiduals, 0)},
+	"NUM-EXP32":    {"NUM-EXP32", rules.NumArith32(rules.ScopeNum, nil, 0)},
+	"NUM-BIG":      {"NUM-BIG", rules.NumBig(rules.ScopeIon, 0)},
+	"NUM-F32":      {"NUM-F32", rules.NumF32(rules.ScopeIon, 0)},
+	"NUM-REFLECT":  {"NUM-REFLECT", rules.NumReflect(rules.ScopeIon, 0)},
+	"NUM-NOFLOAT":  {"NUM-NOFLOAT", rules.NumNoFloat},
+	"TAB-LENPAY":   {"TAB-LENPAY", rules.TabLenPay},
+	"TAB-CODEC":    {"TAB-CODEC", rules.TabCodec},
+	"OWN-TEXTAUTH": {"OWN-TEXTAUTH", rules.OwnTextAuth},
+	"OWN-INPUT":    {"OWN-INPUT", rules.OwnInput},
+	"TAB-DATEVAL":  {"TAB-DATEVAL", rules.TabDateVal},
+	"NUM-ALLOC":    {"NUM-ALLOC", rules.NumAlloc(rules.ScopeAlloc, rules.AllocResiduals, 0)},
+	"NUM-BIG-ALL":  {"NUM-BIG", rules.NumBig(rules.Scope{Name: "module"}, 0)},
 }
